@@ -33,10 +33,34 @@ def block_sums(data, n):
     return out
 
 
-def replay_bin(data, n):
+def _layout(a, layout):
+    """the same values in another memory layout: 'T' = transposed view of the transposed copy, 'F' = Fortran order,
+    'S' = every second sample of a larger buffer, 'W' = window cut from a larger frame"""
+    if layout == "T":
+        return numpy.ascontiguousarray(numpy.swapaxes(a, -1, -2)).swapaxes(-1, -2)
+    if layout == "F":
+        return numpy.asfortranarray(a)
+    if layout == "S":
+        big = numpy.zeros(a.shape[:-2] + (2 * a.shape[-2], 2 * a.shape[-1]), dtype=a.dtype)
+        if a.dtype == object:
+            big[...] = Sym(0)
+        big[..., ::2, ::2] = a
+        return big[..., ::2, ::2]
+    if layout == "W":
+        big = numpy.zeros(a.shape[:-2] + (a.shape[-2] + 2, a.shape[-1] + 3), dtype=a.dtype)
+        if a.dtype == object:
+            big[...] = Sym(7)
+        else:
+            big[...] = 7
+        big[..., 1:-1, 2:-1] = a
+        return big[..., 1:-1, 2:-1]
+    return a.copy()
+
+
+def replay_bin(data, n, layout=None):
     ip, _, _ = _mods()
     data = numpy.asarray(data, dtype=float)
-    work = data.copy()
+    work = _layout(data, layout)
     got = ip.binImgs(work, n)
     got2 = ip.binImgs(work, n)
     want = numpy.zeros(data.shape[:-2] + (data.shape[-2] // n, data.shape[-1] // n))
@@ -46,17 +70,19 @@ def replay_bin(data, n):
     return bool(bad), dict(what="binImgs differs from the n x n block sums (first or repeated call on the same array)", data=data, n=n, got=got, second=got2, want=want)
 
 
-def case_bin(ctx, shape, n):
+def case_bin(ctx, shape, n, layout=None):
     ip, _, _ = _mods()
     data = symarr("d", shape)
     ctx.encoded(ip.binImgs)
-    ctx.bounds.update(shape=list(shape), n=n, data="symbolic real")
-    work = data.copy()
+    ctx.bounds.update(shape=list(shape), n=n, data="symbolic real", memory_layout=layout or "C-contiguous")
+    work = _layout(data, layout)
+    if layout:
+        work = work.view(core.SA)
     with npx.symbolic(ip):
         out = ip.binImgs(work, n)
         out_again = ip.binImgs(work, n)      # the same array object a second time (no state may be left in it)
     ctx.paths += 1
-    rp = lambda m: replay_bin(m(data), n)
+    rp = lambda m: replay_bin(m(data), n, layout)
     want = block_sums(data, n)
     ctx.prove("binImgs = n x n block sums", [], all_eq(numpy.asarray(out, dtype=object), want), replay=rp)
     ctx.prove("binning the same array a second time returns the same block sums", [], all_eq(numpy.asarray(out_again, dtype=object), want), replay=rp)
@@ -192,6 +218,8 @@ def build_cases(tier):
         bins += [((6, 6), 2), ((8, 8), 4), ((2, 6, 6), 3), ((2, 2, 4, 4), 2), ((6, 9), 3), ((8, 8), 2)]
     for shape, n in bins:
         cases.append(("bin/%s/n=%d" % ("x".join(map(str, shape)), n), case_bin, dict(shape=shape, n=n)))
+    for shape, n, lay in [((4, 6), 2, "T"), ((4, 4), 2, "F"), ((4, 4), 2, "S"), ((2, 4), 2, "W")] + ([] if tier == "quick" else [((2, 4, 4), 2, "T"), ((6, 6), 3, "S"), ((6, 4), 2, "W")]):
+        cases.append(("bin/%s/n=%d/layout=%s" % ("x".join(map(str, shape)), n, lay), case_bin, dict(shape=shape, n=n, layout=lay)))
     for size in ([2, 4, 6] if tier == "quick" else [2, 4, 6, 8, 5]):
         cases.append(("azimuthal/size=%d" % size, case_azi, dict(size=size)))
     ee = [(4, None), (4, [1.5, 1.5]), (4, [2.5, 1.5]), (4, [2, 1])]
